@@ -56,6 +56,33 @@ def _same_term(a, b):
     return r
 
 
+def _reciprocal(a, b):
+    fa, fb = fingerprint(a), fingerprint(b)
+    if fa is None or fb is None or fa * fb != 1:
+        return False
+    from .ratform import is_identically_zero
+    return is_identically_zero(a * b - 1)
+
+
+def _log_power_relation(a, r):
+    """rational k with a == r^k as rational functions (so log a == k log r), k in {-1, 2, -2, 1/2, -1/2}"""
+    from .ratform import is_identically_zero
+    fa, fr = fingerprint(a), fingerprint(r)
+    if fa is None or fr is None or fa == 0 or fr == 0:
+        return None
+    if fa * fr == 1 and is_identically_zero(a * r - 1):
+        return z3.RealVal(-1)
+    if fa == fr * fr and is_identically_zero(a - r * r):
+        return z3.RealVal(2)
+    if fa * fr * fr == 1 and is_identically_zero(a * r * r - 1):
+        return z3.RealVal(-2)
+    if fa * fa == fr and is_identically_zero(a * a - r):
+        return z3.RealVal("1/2")
+    if fa * fa * fr == 1 and is_identically_zero(a * a * r - 1):
+        return z3.RealVal("-1/2")
+    return None
+
+
 class Abstraction:
     def __init__(self, exprs):
         self.apps, self.has_int = _collect(exprs)
@@ -73,6 +100,13 @@ class Abstraction:
                 if len(rargs) == len(aargs) and all(_same_term(x, y) for x, y in zip(rargs, aargs)):
                     atom = v
                     break
+            if atom is None and name == "log":
+                # log(1/u) == -log(u): reuse the atom of a reciprocal argument
+                for (r, rargs, v) in reps.get(name, []):
+                    k = _log_power_relation(aargs[0], rargs[0])
+                    if k is not None:
+                        atom = k * v
+                        break
             if atom is None:
                 atom = z3.Real(f"@{name}#{i}")
                 reps.setdefault(name, []).append((a, aargs, atom))
@@ -345,7 +379,8 @@ def prove(hyps, neg, timeout_ms=20000, pairs=None):
         # form over the abstracted atoms (hypothesis-free, sound wherever the divisions are defined)
         from .ratform import is_identically_zero
         ab = Abstraction(list(hyps) + [neg])
-        if all(is_identically_zero(ab(a) - ab(b)) for a, b in pairs):
+        rel = [(v, ab(a.arg(0))) for a, v in ab.atoms if a.decl().name() == "sqrt"]
+        if all(is_identically_zero(ab(a) - ab(b), rel) for a, b in pairs):
             STATS["queries"] += 1
             STATS["unsat"] += 1
             STATS["solver_s"] += time.time() - t0
